@@ -45,7 +45,7 @@ def _kind_strategy(kind, mode, knob):
     src = SRC[kind]
     kw = {}
     if kind == "argparse":
-        kw = dict(argparse_only=True, base_exclude=("int_literal", "none_default", "required_bool", "single_literal"))
+        kw = dict(argparse_only=True, base_exclude=())
     ir = domain.ir_strategy(allowed=tuple(src.CORE_ALLOWED), forced=knob if mode == "frontier" else None, **kw)
     return st.builds(lambda i, o: {"kind": kind, "ir": i, "opts": o}, ir, kinds.opts_strategy(kind))
 
